@@ -244,7 +244,32 @@ func (p *pipe) eventNames(l string) (names []string) {
 	return names
 }
 
+// a stall is a verdict too: an operation that does not return within the limit is reported as HANG and the rest of the
+// history is abandoned (the goroutine cannot be stopped); after three such cases the remaining ones are not run
+var pipelineHangs int
+
+func withWatchdog(limit time.Duration, f func() string) string {
+	ch := make(chan string, 1)
+	go func() {
+		defer func() {
+			if r := recover(); r != nil {
+				ch <- "PANIC"
+			}
+		}()
+		ch <- f()
+	}()
+	select {
+	case r := <-ch:
+		return r
+	case <-time.After(limit):
+		return "HANG"
+	}
+}
+
 func pipelineCase(c string) (res string) {
+	if pipelineHangs >= 3 {
+		return "NOT-RUN\t"
+	}
 	ops := strings.Split(c, " | ")
 	hdr := strings.Fields(ops[0])
 	flags, _ := strconv.Atoi(hdr[0])
@@ -256,7 +281,11 @@ func pipelineCase(c string) (res string) {
 	var results, oracle []string
 	ctx := &mctx{m: p.m, seenM: map[string]bool{}}
 	floatSeen := map[string]bool{}
+	abandoned := false
 	for oi, op := range ops[1:] {
+		if abandoned {
+			break
+		}
 		f := strings.Fields(op)
 		switch f[0] {
 		case "L":
@@ -274,7 +303,16 @@ func pipelineCase(c string) (res string) {
 			for _, name := range p.eventNames(l) {
 				oracle = append(oracle, ctx.matchOracle(name)...)
 			}
-			results = append(results, p.input(l))
+			r := withWatchdog(20*time.Second, func() string { return p.input(l) })
+			if r == "HANG" {
+				pipelineHangs++
+				results = append(results, "I HANG")
+				return strings.Join(results, " | ") + "\t" + strings.Join(oracle, " ")
+			}
+			if r == "PANIC" {
+				r = "I PANIC"
+			}
+			results = append(results, r)
 		case "A":
 			ns, _ := strconv.ParseInt(f[1], 10, 64)
 			clk.Instant = clk.Instant.Add(time.Duration(ns))
@@ -296,7 +334,15 @@ func pipelineCase(c string) (res string) {
 						results = append(results, "G PANIC")
 					}
 				}()
-				results = append(results, p.gather()+" "+p.telemetry())
+				r := withWatchdog(20*time.Second, func() string { return p.gather() + " " + p.telemetry() })
+				if r == "PANIC" {
+					panic("gather")
+				}
+				results = append(results, map[bool]string{true: "G HANG", false: r}[r == "HANG"])
+				if r == "HANG" {
+					pipelineHangs++
+					abandoned = true
+				}
 			}()
 		}
 	}
